@@ -378,7 +378,7 @@ func TestC12(t *testing.T) {
 			}
 			return c
 		}
-		hh.Sub(h, mode, h.N(25000, 120000), gen, propC12)
+		hh.Sub(h, mode, h.N(25000, 80000), gen, propC12)
 		// ONE schema object at several places whose destination types differ in field order / tags
 		mode := mode
 		hh.Sub(h, "shared-"+mode, h.N(5000, 30000), func(rt *rapid.T) model.Case {
